@@ -8,7 +8,7 @@ from vlib.core import AnalysisError, Report
 from vlib.flow import raised_name
 from vlib.match import FI, X, deref, facts, has_call, nodes
 from vlib.srcindex import SourceIndex, mangle, unparse, walk_no_nested
-from vlib.stores import effects_of, is_fresh, stores_of
+from vlib.stores import attr_of, effects_of, is_fresh, stores_of
 
 EXPLANATION = (
 	'Decides: (a) _clone/combine of DI and LazyDI assign every binding store of the new container from a fresh object (.copy(), {**a, **b}) — never an alias of self/other storage — mutate neither operand, '
@@ -48,6 +48,17 @@ def run(rep: Report, tier: str) -> None:
 			for store in binding_stores[cls.name]:
 				key = f'{cls.name}.{mname}:{store}'
 				assigns = [(b, v, n) for b, a, v, n in ef.assigns if a == store and b in newvars]
+				if not assigns and mname == 'combine':
+					# merge in place on the fresh clone: `<new>.<store>.update(other.<store>)` where <new> = self._clone() / super().combine(other)
+					# (freshness of the clone's stores is the _clone obligation; update() lets the right operand win)
+					from_clone = {n.targets[0].id for n in walk_no_nested(f.node) if isinstance(n, ast.Assign) and len(n.targets) == 1 and isinstance(n.targets[0], ast.Name) and isinstance(n.value, ast.Call) and (unparse(n.value.func) in ('self._clone', 'super().combine', 'super()._clone'))}
+					ups = [n for b, a, n in ef.adds if a == store and b in from_clone and isinstance(n, ast.Call) and n.func.attr == 'update' and len(n.args) == 1]
+					if ups:
+						for n in ups:
+							src = attr_of(n.args[0], cls, ('other',))
+							ra.check(src is not None and src[1] == store, key + ':right-wins', (DI_PY, n.lineno), f'combine must merge the right operand\'s {store} over the clone: `{unparse(n)}`', unparse(n))
+						ra.ok(key, f.where, message='merged in place on the fresh clone')
+						continue
 				if not assigns:
 					# DI.combine relies on _clone for copies and must still merge: for DI stores in combine an assignment is required; _clone must assign all
 					ra.violate(key, f.where, f'{cls.name}.{mname} never assigns {store} on the new container: it keeps the empty/initial store (bindings lost) or shares the original', unparse(f.node).split('\n')[0])
